@@ -126,6 +126,33 @@ def run(ctx):
                     recip = cm_field(B, gt['args'][1])
                     via = 'pid'
             found.setdefault(arm, []).append((bb, mrv, recip, via))
+        # a delivery that goes through an intermediate value (the arm only builds `Step { to, message }`, one send further down serves
+        # several arms): the message literal of the arm, the send it flows into, and the recipient packed next to it
+        for var, (rf, mvar, fmap) in ROUTING.items():
+            if found.get(var):
+                continue
+            for lb, j_, st_ in B.stmts():
+                if st_['k'] != '=' or st_['rv']['k'] != 'agg' or st_['rv'].get('adt') != MSG or st_['rv'].get('var') != mvar or lb not in B.live_blocks() or st_['pl'].get('p'):
+                    continue
+                arm = None
+                for (src, vals, dst) in dominating_edges(B, lb):
+                    sd = B.switch_on_discr(src)
+                    if sd and sd[1].replace('&', '') == CM and 'else' not in vals and len(vals) == 1:
+                        arm = ctx.F.adts[CM]['variants'][vals[0]]['n']
+                if arm != var:
+                    continue
+                d_ = B.derived_locals([st_['pl']['l']]) | {st_['pl']['l']}
+                reached = [bb for bb, t in sends if len(t['args']) > 1 and any(l in d_ for l in B._op_locals(t['args'][1]))]
+                if not reached:
+                    continue
+                recip = None
+                for wb, wj, wst in B.stmts():
+                    if wst['k'] == '=' and wst['rv']['k'] == 'agg' and wst['rv'].get('adt') != MSG and wb in B.live_blocks() and any(l in d_ for o_ in wst['rv'].get('ops') or [] for l in B._op_locals(o_)):
+                        for o_ in wst['rv'].get('ops') or []:
+                            f_ = cm_field(B, o_) if o_.get('k') in ('cp', 'mv') else None
+                            if f_ and f_ != 'payload' and not any(l in d_ for l in B._op_locals(o_)):
+                                recip = recip or f_
+                found.setdefault(var, []).append((reached[0], st_['rv'], recip, 'pid'))
         for var, (rf, mvar, fmap) in ROUTING.items():
             ents = found.get(var, [])
             if not ents:
